@@ -2,7 +2,8 @@
 
 1. TLC exhausts specs/Transport/Tamper.tla: every sequence of up to two
    adversary actions (bit flip in length / body / padding / tag, truncation,
-   drop, duplicate, swap, spliced-in replayed / foreign / forged packet) at
+   drop, duplicate, swap, spliced-in replayed / foreign / forged packet, end
+   of stream (FIN) in front of a packet) at
    every position of a packet stream, for the four shapes of the encryption
    layer (E&M, EtM, AES-GCM, chacha20-poly1305): TamperEvident,
    PrefixIntact, UntouchedComplete; the variant that keeps parsing after a
@@ -24,7 +25,8 @@ from harness import tlc, wire
 from harness.framework import run_check, MachineryError, VERIF
 
 SPEC = os.path.join(VERIF, 'specs', 'Transport')
-INVS = ['TamperEvident', 'PrefixIntact', 'UntouchedComplete']
+INVS = ['TamperEvident', 'PrefixIntact', 'UntouchedComplete',
+        'NoCleanEndWhenAltered']
 ALLOWED = (asyncssh.MACError, asyncssh.ProtocolError,
            asyncssh.CompressionError, asyncssh.ConnectionLost,
            asyncssh.KeyExchangeFailed)
@@ -32,7 +34,8 @@ ALLOWED = (asyncssh.MACError, asyncssh.ProtocolError,
 
 def write_cfg(name, consts, invariants=(), properties=(), view=True,
               spec='Spec'):
-    d = dict(NPkts=4, Budget=1, Class='"EandM"', ParseAfterError='FALSE')
+    d = dict(NPkts=4, Budget=1, Class='"EandM"', ParseAfterError='FALSE',
+             EofIsClean='FALSE')
     d.update(consts)
     lines = ['CONSTANTS'] + [f'  {k} = {v}' for k, v in d.items()]
     lines += [f'SPECIFICATION {spec}', 'CHECK_DEADLOCK FALSE']
@@ -153,6 +156,16 @@ def judge(ctx, T, r, m, d, actions, payloads, what, sig):
                        f'the first altered packet but only {len(got)} '
                        f'reached the application')
     lost = r['lost'][recv_side]
+    if any(a['op'] == 'fin' for a in m.applied):
+        # the stream was ended on a packet boundary in front of a packet the
+        # sender wrote: the receiver must report an error, never an orderly
+        # end (a shortened stream is an altered stream)
+        if not lost or lost[0] is None:
+            bad.append(f'ErrOnTamper: the stream was cut short (FIN in front '
+                       f'of packet {[a["id"] for a in m.applied if a["op"] == "fin"][0]}) '
+                       f'and the receiver reported '
+                       f'{"an orderly close" if lost else "nothing"} '
+                       f'(session outcome {r["outcome"]})')
     if changed and m.applied:
         if r['outcome'] == 'ok' and lost and lost[0] is None:
             bad.append('ErrOnTamper: the byte stream was altered but the '
@@ -187,6 +200,8 @@ def main(ctx):
            INVS)
     mc(ctx, 'c01_sens', dict(Class='"GCM"', ParseAfterError='TRUE'),
        ['TamperEvident'], expect='TamperEvident')
+    mc(ctx, 'c01_sens_eof', dict(Class='"ETM"', EofIsClean='TRUE'),
+       ['NoCleanEndWhenAltered'], expect='NoCleanEndWhenAltered')
     mc(ctx, 'c01_w1', dict(Class='"CHACHA"'), ['NeverStall'],
        expect='NeverStall')
     mc(ctx, 'c01_w2', dict(Class='"ETM"'), ['NeverErr'], expect='NeverErr')
